@@ -70,5 +70,30 @@ PROPS["C07"] = {
 }
 
 
+PROPS["C04"] = {
+    "level": "proof",
+    "verus": ["kp_cost"],
+    "kani": [],
+    "unverified_callers": [
+        "LineBreaker::break_line_single_attempt (480-line active-node search): feasibility iff and demerit-optimality are NOT decided; a mutation inside the search loop is not detected by this check",
+        "the two call sites of badness (shortfall > 0 / -shortfall) and of demerits (penalty within +-10000) sit inside that function",
+        "break_line_all_attempts, num_nodes_for_next_class, post_line_break",
+    ],
+    "assumptions": ["demerit parameters within +-9e8, line_penalty within +-1e9 (TeX itself overflows beyond)"],
+}
+PROPS["C17"] = {
+    "level": "proof",
+    "verus": ["tfm_fixword"],
+    "kani": [],
+    "unverified_callers": [
+        "impl Display for FixWord / impl Parse for FixWord (print/parse round trip) - NOT decided yet",
+        "compress (HashSet/sort/iterator code) - NOT decided yet",
+        "NextLargerProgram::{new,get} - NOT decided yet",
+        "callers of to_scaled must pass |fix_word| < 16 and design size >= 0 (validate_and_fix is outside the verified set)",
+    ],
+    "assumptions": ["i32::to_be_bytes is the big-endian two's-complement byte split"],
+}
+
+
 def props():
     return PROPS
